@@ -254,6 +254,15 @@ func (r *srtRoles) classifySpanExpr(info *types.Info, enc srtEnclosing, e ast.Ex
 		if id, ok := ast.Unparen(x.Fun).(*ast.Ident); ok && len(x.Args) == 0 {
 			return r.classifySpanExpr(info, enc, id, depth+1)
 		}
+		// the span carried by another interrupt / cast error, read through its
+		// accessor (`(*i).GetSpan()`) instead of the field
+		if fn := CalleeOf(info, x); fn != nil && len(x.Args) == 0 && fn.Pkg() != nil && strings.HasSuffix(fn.Pkg().Path(), "/runtime/value") {
+			if sig := fn.Type().(*types.Signature); sig.Recv() != nil && sig.Results().Len() == 1 && types.Identical(sig.Results().At(0).Type(), r.spanT) {
+				if sel, ok := ast.Unparen(x.Fun).(*ast.SelectorExpr); ok {
+					return Discharged, "span carried by " + exprStr(sel.X) + " (" + spTypeName(info.Types[sel.X].Type) + ") via " + fn.Name() + "()"
+				}
+			}
+		}
 		return Undecided, "span computed by " + exprStr(x.Fun)
 	case *ast.FuncLit:
 		st, det := Discharged, ""
